@@ -10,15 +10,77 @@ use rml_rtmp::chunk_io::Packet;
 use rml_rtmp::sessions::*;
 use rml_rtmp::time::RtmpTimestamp;
 
+/// everything one session emitted / was told, for the C18 oracle
+pub struct Track {
+    pub packets: Vec<(Vec<u8>, bool, bool)>, // bytes, can_be_dropped, droppable was requested by the application
+    pub allowed_msids: std::collections::HashSet<u32>,
+    pub input: RefDecoder,
+    pub input_failed: bool,   // a handle_input call returned Err (known finding K2 territory)
+}
+
+impl Track {
+    fn new() -> Self { let mut a = std::collections::HashSet::new(); a.insert(0); Track { packets: vec![], allowed_msids: a, input: RefDecoder::new(false), input_failed: false } }
+    fn saw_input(&mut self, data: &[u8]) {
+        // stream ids the peer used, and stream ids a createStream result announced
+        if let Ok(ms) = self.input.decode_all(data) {
+            for m in ms {
+                self.allowed_msids.insert(m.msid);
+                if m.typ == 20 || m.typ == 17 {
+                    if let Ok(vs) = refcodec::decode(&m.data) {
+                        if let (Some(crate::amftext::V::Str(n)), Some(crate::amftext::V::Number(b))) = (vs.get(0), vs.get(3)) {
+                            if n == b"_result" { self.allowed_msids.insert(f64::from_bits(*b) as u32); }
+                        }
+                    }
+                }
+            }
+        }
+    }
+}
+
 pub struct SessSt {
     pub srv: Option<ServerSession>,
     pub srv_out: RefDecoder,
     pub cli: Option<ClientSession>,
     pub cli_out: RefDecoder,
+    pub srv_track: Track,
+    pub cli_track: Track,
 }
 
 impl SessSt {
-    pub fn new() -> Self { SessSt { srv: None, srv_out: RefDecoder::new(false), cli: None, cli_out: RefDecoder::new(false) } }
+    pub fn new() -> Self { SessSt { srv: None, srv_out: RefDecoder::new(false), cli: None, cli_out: RefDecoder::new(false), srv_track: Track::new(), cli_track: Track::new() } }
+}
+
+fn record_srv(t: &mut Track, rs: &[ServerSessionResult]) { for r in rs { if let ServerSessionResult::OutboundResponse(p) = r { t.packets.push((p.bytes.clone(), p.can_be_dropped, false)); } } }
+fn record_cli(t: &mut Track, rs: &[ClientSessionResult], requested: bool) { for r in rs { if let ClientSessionResult::OutboundResponse(p) = r { t.packets.push((p.bytes.clone(), p.can_be_dropped, requested)); } } }
+
+/// C18: the packets a session returned, in order, with a subset of the droppable ones removed, read by the strict
+/// specification reader: decodable, well-formed messages, expected message streams, flags only where requested
+fn decodable(t: &Track, seed: u64) -> String {
+    let tag = if t.input_failed { "after-input-error " } else { "" };
+    let mut pk = refcodec::Pick(seed);
+    let mut bytes = vec![];
+    let mut kept = 0;
+    for (b, d, req) in &t.packets {
+        if *d && !*req { return format!("! FAIL {}droppable-flag-on-a-packet-the-application-did-not-mark", tag); }
+        if *d && pk.next() % 2 == 0 { continue; }
+        bytes.extend_from_slice(b); kept += 1;
+    }
+    let mut rd = RefDecoder::new(true);
+    rd.sequential_only = true;
+    match rd.decode_all(&bytes) {
+        Err(e) => format!("! FAIL {}undecodable {}", tag, e.replace(' ', "_")),
+        Ok(ms) => {
+            if let Some(n) = rd.notes.first() { return format!("! FAIL {}nonconformant {}", tag, n.replace(' ', "_")); }
+            for m in &ms {
+                if !t.allowed_msids.contains(&m.msid) { return format!("! FAIL {}message-type-{}-on-unexpected-stream-{}", tag, m.typ, m.msid); }
+                let ok = match m.typ { 1 | 2 | 3 | 5 => m.data.len() == 4, 6 => m.data.len() == 5, 4 => m.data.len() == 6 || m.data.len() == 10,
+                    18 | 20 => refcodec::decode(&m.data).is_ok(), _ => true };
+                if !ok { return format!("! FAIL {}ill-formed-message-type-{}", tag, m.typ); }
+            }
+            if ms.len() != kept { return format!("! FAIL {}{}-packets-decoded-into-{}-messages", tag, kept, ms.len()); }
+            format!("! ok {} packets", kept)
+        }
+    }
 }
 
 fn opt_u(o: &Option<u32>) -> String { match o { None => "_".into(), Some(n) => n.to_string() } }
@@ -177,8 +239,13 @@ pub fn show_cli_results(rd: &mut RefDecoder, rs: &[ClientSessionResult]) -> Stri
 
 fn s_of(b: Vec<u8>) -> Option<String> { String::from_utf8(b).ok() }
 
+thread_local! { static CLI_DROP: std::cell::Cell<bool> = std::cell::Cell::new(false); }
+
 pub fn op(st: &mut SessSt, toks: &[&str]) -> Option<String> {
+    if toks.first().map(|t| t.starts_with("cli.") && *t != "cli.media") == Some(true) { CLI_DROP.with(|d| d.set(false)); }
     Some(match toks {
+        ["!sess.uptime", kind, ms] => uptime_run(*kind == "s", ms.parse().ok()?),
+        ["!sess.decodable", side, seed] => { let t = if *side == "s" { &st.srv_track } else { &st.cli_track }; decodable(t, seed.parse().ok()?) }
         ["srv.new", now, cs, win, bw, bwdone, fms] => {
             let mut c = ServerSessionConfig::new();
             c.chunk_size = cs.parse().ok()?; c.window_ack_size = win.parse().ok()?; c.peer_bandwidth = bw.parse().ok()?;
@@ -188,7 +255,7 @@ pub fn op(st: &mut SessSt, toks: &[&str]) -> Option<String> {
             st.srv_out = RefDecoder::new(false);
             match ServerSession::new(c) {
                 Err(e) => { st.srv = None; srv_err(&e) }
-                Ok((s, rs)) => { st.srv = Some(s); show_srv_results(&mut st.srv_out, &rs) }
+                Ok((s, rs)) => { st.srv = Some(s); st.srv_track = Track::new(); record_srv(&mut st.srv_track, &rs); show_srv_results(&mut st.srv_out, &rs) }
             }
         }
         ["srv.in", now, sizes, data] => {
@@ -196,36 +263,40 @@ pub fn op(st: &mut SessSt, toks: &[&str]) -> Option<String> {
             let s = st.srv.as_mut()?;
             s.verif_set_uptime_ms(Some(now));
             let mut outs = vec![];
+            st.srv_track.saw_input(&data);
             for c in split_calls(&sizes, &data) {
-                match s.handle_input(c) { Err(e) => { outs.push(srv_err(&e)); break; } Ok(rs) => outs.push(show_srv_results(&mut st.srv_out, &rs)) }
+                match s.handle_input(c) { Err(e) => { st.srv_track.input_failed = true; outs.push(srv_err(&e)); break; } Ok(rs) => { record_srv(&mut st.srv_track, &rs); outs.push(show_srv_results(&mut st.srv_out, &rs)) } }
             }
             outs.join(" | ")
         }
         ["srv.accept", now, id] => {
             let s = st.srv.as_mut()?; s.verif_set_uptime_ms(Some(now.parse().ok()?));
-            match s.accept_request(id.parse().ok()?) { Err(e) => srv_err(&e), Ok(rs) => show_srv_results(&mut st.srv_out, &rs) }
+            match s.accept_request(id.parse().ok()?) { Err(e) => srv_err(&e), Ok(rs) => { record_srv(&mut st.srv_track, &rs); show_srv_results(&mut st.srv_out, &rs) } }
         }
         ["srv.reject", now, id, code, desc] => {
             let s = st.srv.as_mut()?; s.verif_set_uptime_ms(Some(now.parse().ok()?));
-            match s.reject_request(id.parse().ok()?, &s_of(parse_bytes(code)?)?, &s_of(parse_bytes(desc)?)?) { Err(e) => srv_err(&e), Ok(rs) => show_srv_results(&mut st.srv_out, &rs) }
+            match s.reject_request(id.parse().ok()?, &s_of(parse_bytes(code)?)?, &s_of(parse_bytes(desc)?)?) { Err(e) => srv_err(&e), Ok(rs) => { record_srv(&mut st.srv_track, &rs); show_srv_results(&mut st.srv_out, &rs) } }
         }
         ["srv.media", kind, sid, ts, drop, data] => {
             let s = st.srv.as_mut()?;
             let (sid, ts, data) = (sid.parse().ok()?, RtmpTimestamp::new(ts.parse().ok()?), Bytes::from(parse_bytes(data)?));
+            st.srv_track.allowed_msids.insert(sid);
             let r = if *kind == "v" { s.send_video_data(sid, data, ts, *drop == "1") } else { s.send_audio_data(sid, data, ts, *drop == "1") };
-            match r { Err(e) => srv_err(&e), Ok(p) => format!("ok {}", show_out(&mut st.srv_out, &p)) }
+            match r { Err(e) => srv_err(&e), Ok(p) => { st.srv_track.packets.push((p.bytes.clone(), p.can_be_dropped, *drop == "1")); format!("ok {}", show_out(&mut st.srv_out, &p)) } }
         }
         ["srv.meta", now, sid, md] => {
             let s = st.srv.as_mut()?; s.verif_set_uptime_ms(Some(now.parse().ok()?));
-            match s.send_metadata(sid.parse().ok()?, &parse_meta(md)?) { Err(e) => srv_err(&e), Ok(p) => format!("ok {}", show_out(&mut st.srv_out, &p)) }
+            let sidv: u32 = sid.parse().ok()?; st.srv_track.allowed_msids.insert(sidv);
+            match s.send_metadata(sidv, &parse_meta(md)?) { Err(e) => srv_err(&e), Ok(p) => { st.srv_track.packets.push((p.bytes.clone(), p.can_be_dropped, false)); format!("ok {}", show_out(&mut st.srv_out, &p)) } }
         }
         ["srv.ping", now] => {
             let s = st.srv.as_mut()?; s.verif_set_uptime_ms(Some(now.parse().ok()?));
-            match s.send_ping_request() { Err(e) => srv_err(&e), Ok((p, ts)) => format!("ok {} ts={}", show_out(&mut st.srv_out, &p), ts.value) }
+            match s.send_ping_request() { Err(e) => srv_err(&e), Ok((p, ts)) => { st.srv_track.packets.push((p.bytes.clone(), p.can_be_dropped, false)); format!("ok {} ts={}", show_out(&mut st.srv_out, &p), ts.value) } }
         }
         ["srv.finish", now, sid] => {
             let s = st.srv.as_mut()?; s.verif_set_uptime_ms(Some(now.parse().ok()?));
-            match s.finish_playing(sid.parse().ok()?) { Err(e) => srv_err(&e), Ok(p) => format!("ok {}", show_out(&mut st.srv_out, &p)) }
+            let sidv: u32 = sid.parse().ok()?; st.srv_track.allowed_msids.insert(sidv);
+            match s.finish_playing(sidv) { Err(e) => srv_err(&e), Ok(p) => { st.srv_track.packets.push((p.bytes.clone(), p.can_be_dropped, false)); format!("ok {}", show_out(&mut st.srv_out, &p)) } }
         }
         ["cli.new", cs, win, buflen, flash, tcurl] => {
             let mut c = ClientSessionConfig::new();
@@ -233,6 +304,7 @@ pub fn op(st: &mut SessSt, toks: &[&str]) -> Option<String> {
             c.flash_version = s_of(parse_bytes(flash)?)?; c.tc_url = if *tcurl == "_" { None } else { Some(s_of(parse_bytes(tcurl)?)?) };
             st.cli_out = RefDecoder::new(false);
             rml_rtmp::sessions::verif_hooks::set_initial_uptime_ms(Some(0));
+            st.cli_track = Track::new();
             match ClientSession::new(c) { Err(e) => { st.cli = None; cli_err(&e) } Ok((s, _)) => { st.cli = Some(s); "ok".into() } }
         }
         ["cli.in", now, sizes, data] => {
@@ -240,42 +312,44 @@ pub fn op(st: &mut SessSt, toks: &[&str]) -> Option<String> {
             let s = st.cli.as_mut()?;
             s.verif_set_uptime_ms(Some(now));
             let mut outs = vec![];
+            st.cli_track.saw_input(&data);
             for c in split_calls(&sizes, &data) {
-                match s.handle_input(c) { Err(e) => { outs.push(cli_err(&e)); break; } Ok(rs) => outs.push(show_cli_results(&mut st.cli_out, &rs)) }
+                match s.handle_input(c) { Err(e) => { st.cli_track.input_failed = true; outs.push(cli_err(&e)); break; } Ok(rs) => { record_cli(&mut st.cli_track, &rs, false); outs.push(show_cli_results(&mut st.cli_out, &rs)) } }
             }
             outs.join(" | ")
         }
         ["cli.connect", now, app] => {
             let s = st.cli.as_mut()?; s.verif_set_uptime_ms(Some(now.parse().ok()?));
-            match s.request_connection(s_of(parse_bytes(app)?)?) { Err(e) => cli_err(&e), Ok(r) => show_cli_results(&mut st.cli_out, &[r]) }
+            match s.request_connection(s_of(parse_bytes(app)?)?) { Err(e) => cli_err(&e), Ok(r) => { let rs = [r]; record_cli(&mut st.cli_track, &rs, CLI_DROP.with(|d| d.get())); show_cli_results(&mut st.cli_out, &rs) } }
         }
         ["cli.play", now, key] => {
             let s = st.cli.as_mut()?; s.verif_set_uptime_ms(Some(now.parse().ok()?));
-            match s.request_playback(s_of(parse_bytes(key)?)?) { Err(e) => cli_err(&e), Ok(r) => show_cli_results(&mut st.cli_out, &[r]) }
+            match s.request_playback(s_of(parse_bytes(key)?)?) { Err(e) => cli_err(&e), Ok(r) => { let rs = [r]; record_cli(&mut st.cli_track, &rs, CLI_DROP.with(|d| d.get())); show_cli_results(&mut st.cli_out, &rs) } }
         }
         ["cli.publish", now, key, ty] => {
             let s = st.cli.as_mut()?; s.verif_set_uptime_ms(Some(now.parse().ok()?));
             let t = match *ty { "live" => PublishRequestType::Live, "record" => PublishRequestType::Record, "append" => PublishRequestType::Append, _ => return None };
-            match s.request_publishing(s_of(parse_bytes(key)?)?, t) { Err(e) => cli_err(&e), Ok(r) => show_cli_results(&mut st.cli_out, &[r]) }
+            match s.request_publishing(s_of(parse_bytes(key)?)?, t) { Err(e) => cli_err(&e), Ok(r) => { let rs = [r]; record_cli(&mut st.cli_track, &rs, CLI_DROP.with(|d| d.get())); show_cli_results(&mut st.cli_out, &rs) } }
         }
         ["cli.stop", now, what] => {
             let s = st.cli.as_mut()?; s.verif_set_uptime_ms(Some(now.parse().ok()?));
             let r = if *what == "play" { s.stop_playback() } else { s.stop_publishing() };
-            match r { Err(e) => cli_err(&e), Ok(rs) => show_cli_results(&mut st.cli_out, &rs) }
+            match r { Err(e) => cli_err(&e), Ok(rs) => { record_cli(&mut st.cli_track, &rs, false); show_cli_results(&mut st.cli_out, &rs) } }
         }
         ["cli.ping", now] => {
             let s = st.cli.as_mut()?; s.verif_set_uptime_ms(Some(now.parse().ok()?));
-            match s.send_ping_request() { Err(e) => cli_err(&e), Ok((p, ts)) => format!("ok {} ts={}", show_out(&mut st.cli_out, &p), ts.value) }
+            match s.send_ping_request() { Err(e) => cli_err(&e), Ok((p, ts)) => { st.cli_track.packets.push((p.bytes.clone(), p.can_be_dropped, false)); format!("ok {} ts={}", show_out(&mut st.cli_out, &p), ts.value) } }
         }
         ["cli.meta", now, md] => {
             let s = st.cli.as_mut()?; s.verif_set_uptime_ms(Some(now.parse().ok()?));
-            match s.publish_metadata(&parse_meta(md)?) { Err(e) => cli_err(&e), Ok(r) => show_cli_results(&mut st.cli_out, &[r]) }
+            match s.publish_metadata(&parse_meta(md)?) { Err(e) => cli_err(&e), Ok(r) => { let rs = [r]; record_cli(&mut st.cli_track, &rs, CLI_DROP.with(|d| d.get())); show_cli_results(&mut st.cli_out, &rs) } }
         }
         ["cli.media", kind, ts, drop, data] => {
             let s = st.cli.as_mut()?;
             let (ts, data) = (RtmpTimestamp::new(ts.parse().ok()?), Bytes::from(parse_bytes(data)?));
+            CLI_DROP.with(|d| d.set(*drop == "1"));
             let r = if *kind == "v" { s.publish_video_data(data, ts, *drop == "1") } else { s.publish_audio_data(data, ts, *drop == "1") };
-            match r { Err(e) => cli_err(&e), Ok(r) => show_cli_results(&mut st.cli_out, &[r]) }
+            match r { Err(e) => cli_err(&e), Ok(r) => { let rs = [r]; record_cli(&mut st.cli_track, &rs, CLI_DROP.with(|d| d.get())); show_cli_results(&mut st.cli_out, &rs) } }
         }
         // C17: a real session, a window, a list of call sizes (padding = valid chunk bytes that raise nothing): the
         // acknowledgements must be exactly those of the three-line counter, incl. a re-announced window mid-stream
@@ -369,4 +443,75 @@ fn ack_run(server: bool, w: u32, sizes: &[usize], rewin: Option<(usize, u32)>) -
     }
     if sum_acked + since != sum_in { return "! FAIL conservation".into(); }
     format!("! ok acked={} outstanding={}", sum_acked, since)
+}
+
+
+/// C18 at a given uptime with the REAL clock arithmetic (hook H2 shift): a complete mini scenario, everything the
+/// session returns is read by the strict specification reader, and the timestamps of session-generated messages
+/// must be the uptime (mod 2^32) within the run time
+fn uptime_run(server: bool, ms: u64) -> String {
+    use rml_rtmp::chunk_io::ChunkSerializer;
+    use rml_rtmp::messages::RtmpMessage;
+    use rml_amf0::Amf0Value as A;
+    use std::collections::HashMap;
+    rml_rtmp::sessions::verif_hooks::set_initial_uptime_ms(None);
+    let mut peer = ChunkSerializer::new();
+    let mut send = |m: RtmpMessage, msid: u32| -> Vec<u8> { let p = m.into_message_payload(RtmpTimestamp::new(0), msid).unwrap(); peer.serialize(&p, false, false).unwrap().bytes };
+    let cmd = |name: &str, tid: f64, obj: A, args: Vec<A>| RtmpMessage::Amf0Command { command_name: name.to_string(), transaction_id: tid, command_object: obj, additional_arguments: args };
+    let mut out: Vec<(Vec<u8>, bool)> = vec![];   // bytes, is media (application supplied timestamp)
+    if server {
+        let (mut s, rs) = match ServerSession::new(ServerSessionConfig::new()) { Ok(x) => x, Err(e) => return format!("! FAIL {}", srv_err(&e)) };
+        for r in rs { if let ServerSessionResult::OutboundResponse(p) = r { out.push((p.bytes, true)); } }
+        s.verif_shift_clock(ms);
+        let mut props = HashMap::new(); props.insert("app".to_string(), A::Utf8String("live".to_string()));
+        let mut steps: Vec<Vec<u8>> = vec![send(cmd("connect", 1.0, A::Object(props), vec![]), 0)];
+        steps.push(send(cmd("createStream", 2.0, A::Null, vec![]), 0));
+        steps.push(send(cmd("play", 0.0, A::Null, vec![A::Utf8String("key".to_string())]), 1));
+        steps.push(send(RtmpMessage::UserControl { event_type: rml_rtmp::messages::UserControlEventType::PingRequest, stream_id: None, buffer_length: None, timestamp: Some(RtmpTimestamp::new(77)) }, 0));
+        for st in steps {
+            let rs = match s.handle_input(&st) { Ok(x) => x, Err(e) => return format!("! FAIL {}", srv_err(&e)) };
+            let mut ids = vec![];
+            for r in rs { match r { ServerSessionResult::OutboundResponse(p) => out.push((p.bytes, false)), ServerSessionResult::RaisedEvent(ServerSessionEvent::ConnectionRequested { request_id, .. }) => ids.push(request_id), ServerSessionResult::RaisedEvent(ServerSessionEvent::PlayStreamRequested { request_id, .. }) => ids.push(request_id), _ => {} } }
+            for id in ids { match s.accept_request(id) { Ok(rs) => for r in rs { if let ServerSessionResult::OutboundResponse(p) = r { out.push((p.bytes, false)); } }, Err(e) => return format!("! FAIL {}", srv_err(&e)) } }
+        }
+        match s.send_video_data(1, Bytes::from(vec![1u8; 300]), RtmpTimestamp::new(5), true) { Ok(p) => out.push((p.bytes, true)), Err(e) => return format!("! FAIL {}", srv_err(&e)) }
+        match s.send_ping_request() { Ok((p, _)) => out.push((p.bytes, false)), Err(e) => return format!("! FAIL {}", srv_err(&e)) }
+        let mut md = StreamMetadata::new(); md.video_width = Some(1920);
+        match s.send_metadata(1, &md) { Ok(p) => out.push((p.bytes, false)), Err(e) => return format!("! FAIL {}", srv_err(&e)) }
+        match s.finish_playing(1) { Ok(p) => out.push((p.bytes, false)), Err(e) => return format!("! FAIL {}", srv_err(&e)) }
+    } else {
+        let (mut c, _) = match ClientSession::new(ClientSessionConfig::new()) { Ok(x) => x, Err(e) => return format!("! FAIL {}", cli_err(&e)) };
+        c.verif_shift_clock(ms);
+        let mut push = |r: Result<ClientSessionResult, ClientSessionError>, out: &mut Vec<(Vec<u8>, bool)>, media: bool| -> Result<(), String> { match r { Ok(ClientSessionResult::OutboundResponse(p)) => { out.push((p.bytes, media)); Ok(()) } Ok(_) => Ok(()), Err(e) => Err(cli_err(&e)) } };
+        if let Err(e) = push(c.request_connection("live".to_string()), &mut out, false) { return format!("! FAIL {}", e); }
+        let feed = |c: &mut ClientSession, b: Vec<u8>, out: &mut Vec<(Vec<u8>, bool)>| -> Result<(), String> { for r in c.handle_input(&b).map_err(|e| cli_err(&e))? { if let ClientSessionResult::OutboundResponse(p) = r { out.push((p.bytes, false)); } } Ok(()) };
+        if let Err(e) = feed(&mut c, send(cmd("_result", 1.0, A::Null, vec![A::Null]), 0), &mut out) { return format!("! FAIL {}", e); }
+        if let Err(e) = push(c.request_publishing("key".to_string(), PublishRequestType::Live), &mut out, false) { return format!("! FAIL {}", e); }
+        if let Err(e) = feed(&mut c, send(cmd("_result", 2.0, A::Null, vec![A::Number(1.0)]), 0), &mut out) { return format!("! FAIL {}", e); }
+        let mut st = HashMap::new(); st.insert("code".to_string(), A::Utf8String("NetStream.Publish.Start".to_string()));
+        if let Err(e) = feed(&mut c, send(cmd("onStatus", 0.0, A::Null, vec![A::Object(st)]), 1), &mut out) { return format!("! FAIL {}", e); }
+        let mut md = StreamMetadata::new(); md.video_width = Some(1920);
+        if let Err(e) = push(c.publish_metadata(&md), &mut out, false) { return format!("! FAIL {}", e); }
+        if let Err(e) = push(c.publish_video_data(Bytes::from(vec![1u8; 300]), RtmpTimestamp::new(5), true), &mut out, true) { return format!("! FAIL {}", e); }
+        match c.send_ping_request() { Ok((p, _)) => out.push((p.bytes, false)), Err(e) => return format!("! FAIL {}", cli_err(&e)) }
+        match c.stop_publishing() { Ok(rs) => for r in rs { if let ClientSessionResult::OutboundResponse(p) = r { out.push((p.bytes, false)); } }, Err(e) => return format!("! FAIL {}", cli_err(&e)) }
+    }
+    let mut rd = RefDecoder::new(true);
+    rd.sequential_only = true;
+    let want = (ms % (1u64 << 32)) as u32;
+    for (i, (b, media)) in out.iter().enumerate() {
+        match rd.decode_all(b) {
+            Err(e) => return format!("! FAIL packet-{}-undecodable {}", i, e.replace(' ', "_")),
+            Ok(msgs) => {
+                if msgs.len() != 1 { return format!("! FAIL packet-{}-holds-{}-messages", i, msgs.len()); }
+                if !*media {
+                    let d = msgs[0].ts.wrapping_sub(want);
+                    // SetChunkSize announcements carry timestamp 0 by design
+                    if d > 10_000 && !(msgs[0].typ == 1 && msgs[0].ts == 0) { return format!("! FAIL packet-{}-timestamp-{}-is-not-the-uptime-{}", i, msgs[0].ts, want); }
+                }
+            }
+        }
+    }
+    if let Some(n) = rd.notes.first() { return format!("! FAIL nonconformant {}", n.replace(' ', "_")); }
+    format!("! ok {} packets", out.len())
 }
